@@ -996,10 +996,10 @@ Proof.
   rewrite IH. destruct (step s i) as [s1 o]. cbn [fst]. destruct (run s1 r). reflexivity.
 Qed.
 
-Lemma is_fin_true_inv i : is_fin_true i = true -> i = IHs (mkmsg FIN (BFin true)).
+Lemma is_fin_true_inv i : is_fin_true i = true -> exists cl, i = IHs (mkmsg FIN (BFin true) cl).
 Proof.
-  destruct i as [|[t b]]; cbn; try discriminate. destruct b as [| | |[]|]; try discriminate.
-  intro H. apply Z.eqb_eq in H. subst. reflexivity.
+  destruct i as [|[t b cl]]; cbn; try discriminate. destruct b as [| | |[]| |]; try discriminate.
+  intro H. apply Z.eqb_eq in H. subst. exists cl. reflexivity.
 Qed.
 
 (* completion requires a Finished whose verify_data matched, and the value it was compared with was computed from
@@ -1007,13 +1007,13 @@ Qed.
 Theorem finished_binds : forall c is, In c all_cfgs ->
   let s := fst (run (init c) is) in
   err s = false -> hs s = DONE ->
-  exists is1 is2, is = is1 ++ IHs (mkmsg FIN (BFin true)) :: is2 /\
+  exists is1 cl is2, is = is1 ++ IHs (mkmsg FIN (BFin true) cl) :: is2 /\
     let s1 := fst (run (init c) is1) in
     err s1 = false /\ hs s1 <> DONE /\ snap s = tr s1.
 Proof.
   intros c is Hc s He Hd. unfold s in *. rewrite <- grun_id in *.
   destruct (binds_gen (fun _ i => i) c is (init c) (init_live c Hc) He Hd) as [xs1 [x [xs2 [Hx [[E1 [D1 _]] [F T]]]]]].
-  apply is_fin_true_inv in F. subst x. exists xs1, xs2. rewrite <- grun_id.
+  apply is_fin_true_inv in F. destruct F as [cl F]. subst x. exists xs1, cl, xs2. rewrite <- grun_id.
   split; [exact Hx | split; [exact E1 | split; [exact D1 | exact T]]].
 Qed.
 
@@ -1024,27 +1024,54 @@ Variable verify : list tent -> Z -> bool.
 Definition cinput := (input * Z)%type.         (* abstract input + the verify_data a Finished carries *)
 Definition conc (s : hst) (ci : cinput) : input :=
   match ci with
-  | (IHs (mkmsg t (BFin _)), vd) => IHs (mkmsg t (BFin (verify (tr s) vd)))
+  | (IHs (mkmsg t (BFin _) cl), vd) => IHs (mkmsg t (BFin (verify (tr s) vd)) cl)
   | (i, _) => i
   end.
 
 Theorem finished_binds_oracle : forall c cis, In c all_cfgs ->
   let s := grun conc (init c) cis in
   err s = false -> hs s = DONE ->
-  exists pre b vd post, cis = pre ++ (IHs (mkmsg FIN (BFin b)), vd) :: post /\
+  exists pre b cl vd post, cis = pre ++ (IHs (mkmsg FIN (BFin b) cl), vd) :: post /\
     let s1 := grun conc (init c) pre in
     hs s1 <> DONE /\ verify (tr s1) vd = true /\ snap s = tr s1.
 Proof.
   intros c cis Hc s He Hd.
   destruct (binds_gen conc c cis (init c) (init_live c Hc) He Hd) as [xs1 [[i vd] [xs2 [Hx [[E1 [D1 _]] [F T]]]]]].
-  apply is_fin_true_inv in F.
-  destruct i as [|[t b]]; [discriminate|]. destruct b as [| | |b|]; cbn [conc] in F; try discriminate.
-  inversion F as [[Ht Hv]]. subst t. exists xs1, b, vd, xs2. split; [exact Hx|]. split; [exact D1|]. split; [first [exact Hv | reflexivity] | exact T].
+  apply is_fin_true_inv in F. destruct F as [cl0 F].
+  destruct i as [|[t b cl]]; [discriminate|]. destruct b as [| | |b| |]; cbn [conc] in F; try discriminate.
+  inversion F as [[Ht Hv Hcl]]. subst t. exists xs1, b, cl, vd, xs2. split; [exact Hx|]. split; [exact D1|]. split; [first [exact Hv | reflexivity] | exact T].
 Qed.
 End Verify.
 
+(* ---- DTLS: runs with concrete message_seq numbers are runs of the machine (the class of each message computed from lastMsn) *)
+Lemma drun_is_run : forall dis d, exists is, d_core (drun d dis) = fst (run (d_core d) is) /\ length is = length dis.
+Proof.
+  induction dis as [|i r IH]; intro d; cbn [drun].
+  - exists []. split; reflexivity.
+  - unfold dstep at 1. destruct (step (d_core d) (dabs d i)) as [s' o] eqn:Hs. cbn [fst].
+    destruct (IH (mkdst s' (match i, o with DHs _ _ msn, OAccept _ => msn | DHs _ _ msn, OHvr => msn | _, _ => d_last d end))) as [is [H L]].
+    exists (dabs d i :: is). cbn [run length]. rewrite Hs. cbn [d_core] in H. rewrite H.
+    destruct (run s' is). cbn [fst]. split; [reflexivity | rewrite L; reflexivity].
+Qed.
+
+(* DTLS: a message whose message_seq was seen before (other than 0) or lies ahead never reaches the type test - it is dropped,
+   the session is untouched (only a renegotiation request on a completed session is answered first) *)
+Lemma dtls_old_or_future_dropped s m :
+  err s = false -> v13 s = false -> dtls s = true -> (m_cls m = MStale \/ m_cls m = MFut) ->
+  step s (IHs m) = (s, ODrop (match m_cls m with MStale => true | _ => false end)) \/
+  (hs s = DONE /\ step s (IHs m) = (s, OWarn c_SSL_ALERT_NO_RENEGOTIATION)).
+Proof.
+  intros He V D Hc. destruct m as [t b cl]. cbn [m_cls] in *. unfold step. rewrite He, V. unfold step12, gate12d.
+  cbn [m_typ m_cls]. rewrite D. cbn [negb].
+  destruct (if server s then eqb t CH && eqb (hs s) DONE else eqb t HREQ && eqb (hs s) DONE) eqn:NR.
+  - right. split; [|reflexivity].
+    destruct (server s); apply andb_prop in NR; destruct NR as [_ NR]; unfold eqb in NR; apply Z.eqb_eq in NR; exact NR.
+  - left. destruct Hc as [Hc | Hc]; subst cl; reflexivity.
+Qed.
+
 (* ================================================================== the hypotheses are satisfiable *)
-Definition hm (t : Z) (b : body) : input := IHs (mkmsg t b).
+Definition hm (t : Z) (b : body) : input := IHs (mkmsg t b MExp).
+Definition hmc (t : Z) (b : body) (cl : mcls) : input := IHs (mkmsg t b cl).
 Example legal_run_tls12_client_ecdhe_ticket :
   let s := fst (run (init (Client false T_SENT_EMPTY))
                  [hm SH (BHello12 false false true true false); hm CERT BPlain; hm SKE BPlain; hm CREQ BPlain; hm SHD BPlain;
@@ -1087,4 +1114,29 @@ Example deviations_refused :
   err (fst (run (init (Server true false false)) [hm CH (BHello13 true false false); hm CH (BHello13 true false false)])) = true /\
   (* second CertificateRequest *)
   err (fst (run (init (Client false T_INIT)) [hm SH (BHello12 false false true false false); hm CERT BPlain; hm SKE BPlain; hm CREQ BPlain; hm CREQ BPlain])) = true.
+Proof. vm_compute. repeat split; reflexivity. Qed.
+
+(* DTLS: cookie exchange, a retransmitted (stale) ServerHello and an early ChangeCipherSpec are dropped, the ChangeCipherSpec of a
+   retransmitted flight is taken, completion *)
+Example legal_run_dtls_client :
+  let s := fst (run (init (DClient T_INIT))
+                 [hm HVR BPlain; hm SH (BHello12 false false true false false); hmc SH (BHello12 false false true false false) MStale; ICcs;
+                  hm CERT BPlain; hmc SHD BPlain MFut; hm SKE BPlain; hm SHD BPlain; ICcs; ICcs; hm FIN (BFin true)]) in
+  hs s = DONE /\ err s = false /\ length (acc s) = 7%nat.
+Proof. vm_compute. repeat split; reflexivity. Qed.
+Example legal_run_dtls_server_cookie :
+  let d := drun (dinit (DServer true))
+             [DHs CH BHelloNoCookie 0; DHs CH (BHello12 false false true false false) 1; DHs CERT BPlain 2; DHs CKE BPlain 3;
+              DHs CKE BPlain 3; DHs CVFY BPlain 4; DCcs; DHs FIN (BFin true) 5] in
+  hs (d_core d) = DONE /\ err (d_core d) = false /\ d_last d = 5 /\ length (acc (d_core d)) = 6%nat.
+Proof. vm_compute. repeat split; reflexivity. Qed.
+Example dtls_deviations_refused :
+  (* expected message_seq, wrong type: ServerKeyExchange where Certificate is due *)
+  err (fst (run (init (DClient T_INIT)) [hm HVR BPlain; hm SH (BHello12 false false true false false); hm SKE BPlain])) = true /\
+  (* second HelloVerifyRequest with the expected message_seq *)
+  err (fst (run (init (DClient T_INIT)) [hm HVR BPlain; hm HVR BPlain])) = true /\
+  (* Finished with the expected message_seq before ChangeCipherSpec *)
+  err (fst (run (init (DServer false)) [hm CH (BHello12 false false true false false); hm CKE BPlain; hm FIN (BFin true)])) = true /\
+  (* cookie-less ClientHello once the handshake has begun *)
+  err (fst (run (init (DServer false)) [hm CH (BHello12 false false true false false); hm CH BHelloNoCookie])) = true.
 Proof. vm_compute. repeat split; reflexivity. Qed.
